@@ -69,6 +69,7 @@ func vHash(kind string, data []byte, n int) []byte
 func vSchedule()
 func vThreads()
 func vSchedulePolicy(k int)
+func vScheduleExplore(k int, preempt bool)
 func vYield()
 func vLiveThreads() int
 func vTimerCount() int
